@@ -313,6 +313,11 @@ def run(ctx):
             RC.check_remove_edge(ctx, res, cls)
         with res.guard("RC.check_remove_nodectx, res, cls"):
             RC.check_remove_node(ctx, res, cls)
+        # a removal loop that walks the live incidence list it shrinks skips every other hyperedge: the survivors stay in the
+        # tables the hash reads although their node is gone
+        res.rules["E-LIVEITER"] = "no loop iterates an internal table (or a list stored in it) while its body writes that table, directly or via self.<method>() (remove_node would leave hyperedges of the removed node in the hashed tables)"
+        with res.guard("RC.check_live_iteration(ctx, res, cls)"):
+            RC.check_live_iteration(ctx, res, cls)
     res.rules["P-DEL"] = "remove_edge prunes every id-keyed table and the incidence lists (hash reads them)"
     res.rules["P-NODE"] = "remove_node prunes every node table (hash enumerates nodes from them)"
     res.assumptions += ["SHA-256 / json.dumps are trusted; collision freedom is not decided", "labels and metadata are JSON-representable and mutually comparable (property quantifier)"]
